@@ -430,6 +430,7 @@ type LoopContract struct {
 }
 
 type FuncContract struct {
+	Uses     []string // lemmas assumed in this function's VC (each discharged on its own)
 	Key      string
 	File     string
 	Line     int
@@ -454,6 +455,7 @@ type FuncContract struct {
 }
 
 type Lemma struct {
+	Uses    []string // lemmas assumed (each discharged on its own)
 	Name    string
 	Props   []string
 	C       Clause
@@ -477,17 +479,18 @@ type Specs struct {
 	SFuncs map[string]*SpecFunc
 	Axioms []Clause // global axioms over spec functions (assumed; listed)
 	Scan   []string // occurrences of assume / trusted / inline / wraps for the evidence
+	GhostFields map[string]string // per-object ghost state: name -> type
 }
 
 func NewSpecs() *Specs {
-	return &Specs{Funcs: map[string]*FuncContract{}, Stubs: map[string]*FuncContract{}, SFuncs: map[string]*SpecFunc{}}
+	return &Specs{Funcs: map[string]*FuncContract{}, Stubs: map[string]*FuncContract{}, SFuncs: map[string]*SpecFunc{}, GhostFields: map[string]string{}}
 }
 
 var keywords = map[string]bool{
 	"func": true, "stub": true, "property": true, "returns": true, "requires": true, "ensures": true,
 	"modifies": true, "inline": true, "trusted": true, "ghost": true, "loop": true, "invariant": true,
 	"decreases": true, "at": true, "lemma": true, "spec": true, "assume": true, "pragma": true, "axiom": true,
-	"before": true,
+	"before": true, "ghostfield": true, "uses": true,
 }
 
 func firstWord(s string) (string, string) {
@@ -653,10 +656,14 @@ func (sp *Specs) ParseSpecFile(path string) error {
 			}
 			lm := &Lemma{Name: name, Trusted: trusted, File: path}
 			// optional "property Cxx" prefix words
-			for strings.HasPrefix(body, "property ") {
-				_, b2 := firstWord(body)
+			for strings.HasPrefix(body, "property ") || strings.HasPrefix(body, "uses ") {
+				kw, b2 := firstWord(body)
 				id, b3 := firstWord(b2)
-				lm.Props = append(lm.Props, id)
+				if kw == "property" {
+					lm.Props = append(lm.Props, id)
+				} else {
+					lm.Uses = append(lm.Uses, strings.Split(id, ",")...)
+				}
 				body = b3
 			}
 			c, err := parseClause(body, l.no, path)
@@ -691,6 +698,12 @@ func (sp *Specs) ParseSpecFile(path string) error {
 			}
 			sp.SFuncs[name] = sf
 			curSF = sf
+		case "ghostfield":
+			f := strings.Fields(rest)
+			if len(f) != 2 {
+				return fail(fmt.Errorf("ghostfield: want 'ghostfield name type'"))
+			}
+			sp.GhostFields[f[0]] = f[1]
 		case "axiom":
 			c, err := parseClause(rest, l.no, path)
 			if err != nil {
@@ -746,6 +759,10 @@ func (sp *Specs) ParseSpecFile(path string) error {
 						}
 						cur.Modifies = append(cur.Modifies, c)
 					}
+				}
+			case "uses":
+				for _, u := range strings.Split(rest, ",") {
+					cur.Uses = append(cur.Uses, strings.TrimSpace(u))
 				}
 			case "inline":
 				cur.Inline = true
@@ -818,6 +835,12 @@ func (sp *Specs) ParseSpecFile(path string) error {
 						if kw == "assume" {
 							sp.Scan = append(sp.Scan, fmt.Sprintf("assume %q at %s in %s (%s:%d)", c.Text, ac.Anchor, cur.Key, shortPath(path), l.no))
 						}
+					case "apply":
+						c, err := parseClause(r, l.no, path)
+						if err != nil {
+							return err
+						}
+						ac.Actions = append(ac.Actions, Action{Kind: "apply", C: c})
 					case "ghost":
 						j := strings.Index(r, "=")
 						if j < 0 {
